@@ -3,7 +3,11 @@
 Proof      : coq/Props/C11.v over Model/Schema.v + Gen/GenSchema.v (the signature's container kind and tuple
              shape, the primitive type set, type_mapping, the no-bounds type tuple are REGENERATED from the
              source on every run; _validate_schema_against_table, create_arrow_schema and the bounds keying
-             are pinned by golden AST shape).
+             are pinned by golden AST shape), and over Model/SchemaOpen.v + Gen/GenOpen.v for HANDLE PROVENANCE:
+             what create_table / load_table / Table.__init__ do when a handle is obtained (program-order actions,
+             helpers inlined, every create_arrow_schema call with the origin of its schema) is REGENERATED
+             (translator/gen_open.py, fail-closed; `_arrow_schema_cache` may be touched by no other site); the
+             theorems C11_open_* / C11_handle* hold of histories that interleave openings with appends.
 Oracles    : implementation only, judged by an independent reader (json / fastavro / pyarrow, no datashard):
                e2e      histories of appends (schema-argument variants x fresh / reused handles x batches over
                         value classes): rejected -> pointer, metadata, snapshot list, reachable files and table
@@ -25,6 +29,13 @@ Oracles    : implementation only, judged by an independent reader (json / fastav
                         copy of the handle's own schema object -- x the divergent variants x fresh / reused handles; the
                         same build modes are mixed into every random history and transaction and into `accept`
                prebuilt pre-built parquet files with divergent footers / other formats through append_files
+               handles  HANDLE PROVENANCE (harness/lib/c11_open.py): the appending handle obtained by load_table, create_table(path),
+                        create_table(path, schema=S) / Table(path, schema=S) on the EXISTING table -- S every schema-argument
+                        variant (incl. narrowed / widened types) under the table's schema_id or another, built in every build
+                        mode --, names re-bound mid-history, further handles opened and kept alive; then schema-less / identical
+                        appends, transactions and pre-built files (one carrying exactly the layout S describes) through THAT
+                        handle; a handle whose first call was a REJECTED divergent append; directed (oracle_handles) and mixed
+                        into every random history and transaction; full scans also through the handle that appended
                tx       EXPLICIT transactions that outlive a rejected call (harness/lib/c11_tx.py): begin / several
                         append_data and MULTI-FILE append_files calls, the refused file at every position, the caller
                         catching the exception / commit, failing commit, rollback or abandoned handle; a rejected call
@@ -34,10 +45,11 @@ Tie        : correspondence of every hand-written model piece with the code:
                arrow    create_arrow_schema (fresh manager) vs arrow_of
                records  validate_records_strict             vs validate_record (incl. value_fits)
                conv     pyarrow conversion of admitted values vs canon  (hypothesis conv_sound of C11_exact_partial)
-               machine  the e2e histories                   vs the append machine `run` (outcomes, snapshots,
-                        footers, bound ids and values, store listing, scan results)
-               transactions  the tx histories               vs Model/SchemaTx.v run_calls / end_tx (call tags, snapshots,
-                        library-written files on storage, every current file, scan_ok)
+               machine  the e2e + handle histories          vs the append machine with openings (SchemaEval.htrace: outcomes,
+                        snapshots, footers, bound ids and values, store listing, scan results, and the Arrow-schema CACHE of
+                        every handle involved, read off the real DataFileManager after each step)
+               transactions  the tx histories               vs Model/SchemaTx.v run_calls / end_tx with openings (thtrace: call tags,
+                        snapshots, library-written files on storage, every current file, scan_ok, handle caches)
 Findings   : (findings/C11-unchanged-tree.log, findings/C11-prebuilt-format-unchanged-tree.log, findings/C11-replays/)
                F-C11   unordered, id-less schema signature: reordered -> scans raise; renumbered -> rows mis-filtered   (fixed)
                F-C11b  pyarrow silently alters values validate_records_strict let through (1.5 -> 1, int -> timestamp,
@@ -89,7 +101,13 @@ MANIFEST_ENTRY = {
                   "other end publishes nothing, scans keep working, and calls made while storage operations fail (metadata "
                   "unreadable, marker writes failing) fail closed -- never 'no schema to enforce' (C11_tx_*); an append depends on the schema argument "
                   "object only through its schema_id and fields, never through derived attributes such as a stale "
-                  "schema_string (C11_arg_object_irrelevant); a rejected append leaves "
+                  "schema_string (C11_arg_object_irrelevant); handle provenance is irrelevant: over the REGENERATED actions of "
+                  "create_table / load_table / Table.__init__ (Gen/GenOpen.v) no opening derives an Arrow layout from its "
+                  "unvalidated schema argument (C11_open_derives_only_persisted), an opening never touches the table "
+                  "(C11_open_no_trace), and in any history interleaving openings (any opener, any schema argument, handles "
+                  "re-bound or alive side by side) with appends every outcome, the table state and all scans equal those of "
+                  "the history without the openings (C11_handle_provenance_irrelevant; C11_handles_history_scans / _filter / "
+                  "_exact_partial / _tx_history_scans spell out the consequences); a rejected append leaves "
                   "schema, snapshot list, reachable files and stored data files unchanged (C11_reject_no_trace); accepted "
                   "rows are stored as canon(type, value) with every value representable (C11_exact_partial, under "
                   "conv_sound). Model pieces tied to the code by differential execution; implementation-only end-to-end "
@@ -97,9 +115,11 @@ MANIFEST_ENTRY = {
     "level_note": "C11_exact_partial is partial: hypothesis conv_sound (pyarrow stores an ADMITTED value as canon or raises) "
                   "is validated against real pyarrow on every run, not proved. Scope: tables with a persisted schema "
                   "(legacy tables without one enforce nothing: open finding), primitive column types, append_records / "
-                  "append_data / append_files. Trusted: Coq kernel, translator/gen_schema.py, harness.",
-    "technique": "Coq proof (induction over append histories, invariant) over translator-regenerated tables + differential "
-                 "correspondence + end-to-end oracle with independent reader",
+                  "append_data / append_files; handles on a table that EXISTS (creation of an absent table is C18's). "
+                  "Trusted: Coq kernel, translator/gen_schema.py, translator/gen_open.py, harness.",
+    "technique": "Coq proof (induction over histories of openings and appends, invariant, erasure of openings) over "
+                 "translator-regenerated tables and opening skeletons + differential correspondence (incl. per-handle "
+                 "caches) + end-to-end oracle with independent reader",
     "design_ref": "DESIGN.md section 5 C11",
 }
 
@@ -1030,6 +1050,30 @@ def oracle_handles(ctx) -> Tuple[List[Tuple[Dict[str, Any], Dict[str, Any]]], Li
             {"handle": "A", "variant": "omitted", "arg": None, "sid": 1, "build": "fresh", "records": [{"a": va[1], "b": vb[1]}], "also_open": sp},
             {"handle": "B", "variant": "omitted", "arg": None, "sid": 1, "build": "fresh", "records": [{"a": va[1], "b": vb[0]}]}]}, 1))
         meta.append(f"{open_label(sp)} opened next to the appending handle")
+    # per-handle state left behind by a call that RAISED: the handle's first use is an append with a divergent
+    # schema argument (under the table's schema_id, records that fit that argument), the next one is schema-less;
+    # for every provenance of the handle
+    for how in ("named", "load", "create", "create_schema"):
+        for vname in variants:
+            fields, va, vb = table()
+            v = make_variant(rng, fields, vname)
+            if v is None or v[0] is None:
+                continue
+            arg = v[0]
+            sp = None if how == "named" else ({"how": how} if how != "create_schema" else spec_for(fields, how, "identical", True))
+            names = {f["name"] for f in arg}
+            rec = {k: x for k, x in {"a": va[1], "b": vb[1]}.items() if k in names}
+            for f in arg:
+                if f["name"] not in rec:
+                    rec[f["name"]] = good_values(declared_type(f["type"]))[0] if declared_type(f["type"]) != "opaque" else "s"
+            mid = {"handle": "B", "variant": vname, "arg": arg, "sid": 1, "build": "fresh", "records": [rec]}
+            if sp is not None:
+                mid["open"] = sp
+            jobs.append(({"fields": fields, "seed": rng.getrandbits(30), "steps": [
+                {"handle": "A", "variant": "omitted", "arg": None, "sid": 1, "build": "fresh", "records": [{"a": va[0], "b": vb[0]}]},
+                mid,
+                {"handle": "B", "variant": "omitted", "arg": None, "sid": 1, "build": "fresh", "records": [{"a": va[1], "b": vb[1]}]}]}, 1))
+            meta.append(f"{open_label(sp) if sp else 'load_table (default)'}; first call through it: append with a {vname} schema argument")
     for vname in PLAIN_VARIANTS:                     # explicit transactions through such a handle
         for calls_kind in ("records", "files"):
             fields, va, vb = table()
@@ -1864,15 +1908,20 @@ def corr_tx(ctx, runs: List[Tuple[Dict[str, Any], Dict[str, Any]]]) -> None:
 def run(ctx) -> None:
     ctx.rule = ("e2e: random histories (3-6 append attempts) over 1-3 column schemas of 12 primitive types x 13 schema-argument "
                 "variants x {reused A, reused B, fresh} handles x batches drawn from a pool of value classes; a history is "
-                "distinct by (case index, step); cells: 12 types x value pool; after every step the independent reader "
+                "distinct by (case index, step); handle provenance: each step's handle may be re-obtained (load_table / "
+                "create_table / Table(...) x schema-argument variants x schema ids x build modes) and further handles opened; "
+                "cells: 12 types x value pool; after every step the independent reader "
                 "and full + filtered scans judge the property")
     ctx.trusted_base += [
         "translator/gen_schema.py (literal tables and the signature's shape from the source; other functions pinned by golden AST)",
+        "translator/gen_open.py (the actions of create_table / load_table / Table.__init__ from the source, helpers inlined; "
+        "_get_current_schema read-only, _arrow_schema_cache touched only by DataFileManager.__init__ / create_arrow_schema: checked, fail-closed)",
         "hypothesis conv_sound (C11_exact_partial): pyarrow stores an admitted value as Model/Schema.v canon or raises -- validated by the 'conv' correspondence",
         "rnd32 = IEEE binary32 round-to-nearest-even (struct.pack('f')), a parameter of canon",
         "harness: harness/props/c11.py, harness/lib/c11_values.py (independent reader, reference judgement `exact`)",
     ]
     ctx.assumptions += ["the table has a persisted, non-empty schema (create_table(path, schema)); legacy tables enforce nothing",
+                        "handles are obtained on a table that already exists (Table.__init__ initialises only when refresh() is None: pinned by gen_open.py)",
                         "field names and ids unique within a schema (enforced by Schema.__post_init__; pinned by the translator)",
                         "column types are the primitive types of Schema.__post_init__",
                         "C13: pruning by bounds stored under the looked-up id never changes a filtered scan (composed in C11_history_filter)"]
